@@ -120,6 +120,9 @@ structure World where
   recorded : Nat → Option Obs
   actual : Nat → Obs
   clock : Nat
+  /-- the watched file / parameter file / command source is not on disk (`XvcMetadata.file_type = Missing`
+      in `XvcPathMetadataProvider`); `actual` keeps what the resource holds while it is away -/
+  absent : Nat → Bool := fun _ => false
 
 def depOf (p : Pipe) (w : World) (d : Nat) : Dep :=
   { metaCounts := p.metaCounts d, recorded := w.recorded d, actual := w.actual d }
@@ -155,6 +158,15 @@ def decideRunUnpatched (p : Pipe) (w : World) (s : Step) (visible : List Nat) (u
 
 def upd {α : Type} (f : Nat → α) (k : Nat) (v : α) : Nat → α := fun j => if j = k then v else f j
 
+/-- Some own dependency of the step watches a resource that is absent.  Comparing such a dependency does not
+    yield a diff in the current tree: `FileDep::from_pmp` returns `Error::PathNotFound`, `ParamDep::update_value`
+    an I/O error, `GenericDep` a process error, and `LinesDep` / `LineItemsDep` / `RegexDep` / `RegexItemsDep::
+    update_digest` panic on the unreadable file; the step thread ends `Broken`
+    (`s_checking_superficial_diffs` / `…thorough_diffs…` error path, "panic in step thread").
+    The `(Some(record), None) => Diff::ActualMissing` arm of `diff_superficial` is never reached because
+    `XvcPathMetadataProvider::get` answers `Some(metadata of type Missing)` for such a path. -/
+def ownAbsent (w : World) (s : Step) : Bool := s.deps.any w.absent
+
 /-- What happened to one step. -/
 structure Outcome where
   ran : Bool
@@ -175,11 +187,13 @@ def stepOutcome (p : Pipe) (w : World) (fails missing : Nat → Bool) (σ : Nat 
     let allDone := ups.all fun u => (σ u).done
     let allBroken := ups.all fun u => !(σ u).done
     if allDone || (allBroken && rc.ignoreBrokenDepSteps) then
-      let upstreamRan := ups.any fun u => decide (σ u = .doneRun)
-      let miss := !rc.ignoreMissingOutputs && missing i
-      if decideRun p w s upstreamRan miss then
-        { ran := true, st := if fails i then .broken else .doneRun }
-      else { ran := false, st := .doneSkip }
+      if ownAbsent w s then { ran := false, st := .broken }      -- comparison error / panic: `Broken`
+      else
+        let upstreamRan := ups.any fun u => decide (σ u = .doneRun)
+        let miss := !rc.ignoreMissingOutputs && missing i
+        if decideRun p w s upstreamRan miss then
+          { ran := true, st := if fails i then .broken else .doneRun }
+        else { ran := false, st := .doneSkip }
     else { ran := false, st := .broken }
 
 structure RunState where
@@ -233,6 +247,10 @@ inductive Ev where
   | addGlobMember (d : Nat)
   | rmGlobMember (d : Nat)
   | setParam (d : Nat)
+  /-- the watched resource is moved away (content and mtime travel with it) -/
+  | vanish (d : Nat)
+  /-- … and moved back -/
+  | comeBack (d : Nat)
   | run (fails missing : Nat → Bool)
 
 def bumpBoth (w : World) (d : Nat) : World :=
@@ -247,6 +265,8 @@ def applyEv (p : Pipe) (w : World) : Ev → World
   | .rmGlobMember d => bumpBoth w d
   | .setParam d => bumpBoth w d
   | .touch d => bumpMeta w d
+  | .vanish d => { w with absent := upd w.absent d true }
+  | .comeBack d => { w with absent := upd w.absent d false }
   | .run fails missing => (runPipeline p w fails missing).world
 
 def applyHistory (p : Pipe) (w : World) (h : List Ev) : World := h.foldl (applyEv p) w
@@ -273,7 +293,7 @@ def showSt : St → String
 
 /-- requests:
     `pipe <n>` · `step <i> <d|a|n> <deps> <explicit> <implicit>` · `mc <dep>` (glob digest kind) ·
-    `edit|touch|add|rm|param <dep>` · `run <failing steps> <steps with missing outputs>` -/
+    `edit|touch|add|rm|param|vanish|return <dep>` · `run <failing steps> <steps with missing outputs>` -/
 def driverStep (st : DState) (line : String) : DState × String :=
   match line.trimAscii.toString.splitOn " " with
   | ["pipe", n] =>
@@ -298,7 +318,8 @@ def driverStep (st : DState) (line : String) : DState × String :=
     | some d =>
       let ev := match op with
         | "edit" => some (Ev.edit d) | "touch" => some (Ev.touch d) | "add" => some (Ev.addGlobMember d)
-        | "rm" => some (Ev.rmGlobMember d) | "param" => some (Ev.setParam d) | _ => none
+        | "rm" => some (Ev.rmGlobMember d) | "param" => some (Ev.setParam d)
+        | "vanish" => some (Ev.vanish d) | "return" => some (Ev.comeBack d) | _ => none
       match ev with
       | some ev => ({ st with world := applyEv st.pipe st.world ev }, "ok")
       | none => (st, "bad-op")
